@@ -12416,3 +12416,525 @@ func E11AngleRangeNormalised(c *core.Ctx, r *core.Report) {
 	r.Count("E11.angle-range-normalised", n)
 	r.Floor("E11.angle-range-normalised", 4)
 }
+
+// E11ObjectOwnItem: every inline-object placeholder is an item of its own.
+func E11ObjectOwnItem(c *core.Ctx, r *core.Report) {
+	r.Rule("E11.object-own-item", "RichText.ToText decides from the first glyph of a span whether the span is an inline object and then places that one object: it relies on ScriptItemizer putting every placeholder (U+FFFD) into an item of its own. The boundary condition of the itemizer therefore holds in all three cases that involve a placeholder — text before placeholder, placeholder before text, and placeholder before placeholder (evaluated from the expression: comparisons of the current and the previous rune with the placeholder set to the case at hand, `0 < j` true). A condition that is true only where text and placeholder meet merges adjacent objects into one span: the second object is never placed, the text after it is drawn in its place, and aligned lines end short by its width")
+	p := c.MustPkg("text")
+	info := p.TypesInfo
+	fd := core.MustFuncDecl(p, "ScriptItemizer")
+	r.Func("text.ScriptItemizer")
+	// the boolean local whose definition compares runes with unicode.ReplacementChar
+	isPlaceholder := func(e ast.Expr) bool {
+		se, ok := core.Unparen(e).(*ast.SelectorExpr)
+		return ok && se.Sel.Name == "ReplacementChar"
+	}
+	var def ast.Expr
+	var defPos token.Pos
+	ast.Inspect(fd.Body, func(m ast.Node) bool {
+		as, ok := m.(*ast.AssignStmt)
+		if !ok || len(as.Lhs) != 1 || len(as.Rhs) != 1 {
+			return true
+		}
+		has := false
+		ast.Inspect(as.Rhs[0], func(k ast.Node) bool {
+			if e, ok := k.(ast.Expr); ok && isPlaceholder(e) {
+				has = true
+			}
+			return true
+		})
+		if b, ok := info.TypeOf(as.Lhs[0]).Underlying().(*types.Basic); ok && b.Kind() == types.Bool && has && def == nil {
+			def, defPos = as.Rhs[0], as.Pos()
+		}
+		return true
+	})
+	if def == nil {
+		r.Fail("E11.object-own-item", "text.ScriptItemizer|placeholder boundary", c.Pos(fd.Pos()), "the boolean that marks a boundary at the object placeholder (a comparison with unicode.ReplacementChar) was not found")
+		return
+	}
+	n := 0
+	for _, cs := range []struct {
+		name      string
+		cur, prev bool
+	}{{"text before placeholder", true, false}, {"placeholder before text", false, true}, {"placeholder before placeholder", true, true}} {
+		n++
+		env := func(e ast.Expr) tri {
+			be, ok := e.(*ast.BinaryExpr)
+			if !ok {
+				return tUnknown
+			}
+			if be.Op == token.EQL || be.Op == token.NEQ {
+				var other ast.Expr
+				if isPlaceholder(be.X) {
+					other = be.Y
+				} else if isPlaceholder(be.Y) {
+					other = be.X
+				}
+				if other != nil {
+					val := cs.cur
+					if _, isIndex := core.Unparen(other).(*ast.IndexExpr); isIndex {
+						val = cs.prev // runes[j-1]
+					}
+					return triOf(val == (be.Op == token.EQL))
+				}
+			}
+			if be.Op == token.LSS || be.Op == token.LEQ || be.Op == token.NEQ {
+				// 0 < j : there is a previous rune in the cases considered
+				if v, ok := core.ConstInt(info, be.X); ok && v == 0 {
+					return tTrue
+				}
+			}
+			return tUnknown
+		}
+		key := "text.ScriptItemizer|boundary for " + cs.name
+		switch evalBool(info, def, env) {
+		case tTrue:
+			r.OK("E11.object-own-item", key, c.Pos(defPos), "")
+		case tFalse:
+			r.Fail("E11.object-own-item", key, c.Pos(defPos), fmt.Sprintf("`%s` is false for a %s: the two end up in one item, ToText reads only the first glyph of the span to find the object and its width, so the other object is never placed and everything after it on the line is displaced by its width", types.ExprString(def), cs.name))
+		default:
+			r.Fail("E11.object-own-item", key, c.Pos(defPos), fmt.Sprintf("`%s` could not be evaluated for a %s", types.ExprString(def), cs.name))
+		}
+	}
+	r.Count("E11.object-own-item", n)
+}
+
+// E11BezierNormalHelper: the normal of a Bézier at a parameter comes from the helper that survives a vanishing derivative.
+func E11BezierNormalHelper(c *core.Ctx, r *core.Report) {
+	r.Rule("E11.bezier-normal-helper", "the derivative of a cubic vanishes at an end whose control point coincides with the end point (a retracted handle); cubicBezierNormal falls back to the next distinct control point there. The stroker computes the offset curve with that helper, so every other normal of the same segment — the end normals Path.offset hands to the joiners and cappers — comes from it too: nowhere in the package (outside the helper) is a normal made by turning the result of a Bézier derivative function (…BezierDeriv, …BezierDirection) with Rot90CW/Rot90CCW. With a zero end normal the joins and caps collapse onto the centre line and the offset curve, which starts at the true normal, no longer connects to them")
+	p := c.MustPkg("")
+	info := p.TypesInfo
+	n := 0
+	for _, fd := range core.AllFuncDecls(p) {
+		if fd.Body == nil || strings.HasSuffix(c.Fset.Position(fd.Pos()).Filename, "_test.go") {
+			continue
+		}
+		name := core.FuncName(fd)
+		k := 0
+		ast.Inspect(fd.Body, func(m ast.Node) bool {
+			call, ok := m.(*ast.CallExpr)
+			if !ok {
+				return true
+			}
+			if f := core.CalleeOf(info, call); f != nil && f.Pkg() == p.Types && f.Name() == "cubicBezierNormal" && name != "cubicBezierNormal" {
+				k++
+				n++
+				r.OK("E11.bezier-normal-helper", fmt.Sprintf("canvas.%s|normal of a Bézier #%d", name, k), c.Pos(call.Pos()), "cubicBezierNormal")
+				return true
+			}
+			se, ok := call.Fun.(*ast.SelectorExpr)
+			if !ok || (se.Sel.Name != "Rot90CW" && se.Sel.Name != "Rot90CCW") {
+				return true
+			}
+			inner, ok := core.Unparen(se.X).(*ast.CallExpr)
+			if !ok {
+				return true
+			}
+			g := core.CalleeOf(info, inner)
+			if g == nil || g.Pkg() != p.Types || !strings.Contains(g.Name(), "Bezier") || !(strings.HasSuffix(g.Name(), "Deriv") || strings.HasSuffix(g.Name(), "Direction")) {
+				return true
+			}
+			if name == "cubicBezierNormal" {
+				return true
+			}
+			k++
+			n++
+			r.Fail("E11.bezier-normal-helper", fmt.Sprintf("canvas.%s|normal of a Bézier #%d", name, k), c.Pos(call.Pos()), fmt.Sprintf("`%s` turns the derivative into a normal directly: at an end whose control point coincides with the end point the derivative is zero, the normal has no direction, and the joins and caps built from it collapse while the offset curve (which uses cubicBezierNormal and its fallback) does not meet them", types.ExprString(call)))
+			return true
+		})
+	}
+	r.Count("E11.bezier-normal-helper", n)
+	r.Floor("E11.bezier-normal-helper", 4)
+}
+
+// E11DashReductionDivides: a dash array is cut down to a repeated prefix only when the prefix divides it.
+func E11DashReductionDivides(c *core.Ctx, r *core.Report) {
+	r.Rule("E11.dash-reduction-divides", "dashCanonical replaces a dash array that is a whole number of repetitions of a shorter pattern by that pattern. Wherever it keeps a prefix `d = d[:K]` with K a variable, the statement is reached under a condition that K divides the length: `len(d) % K == 0`, or K was computed as `len(d) / c` under `len(d) % c == 0`. Without it an array that ends in the middle of a repetition — [2 1 2 1 2], which stands for 2 1 2 1 2 2 1 2 1 2 with period 16 — is truncated to [2 1] with period 3, and every dash and gap after the first pair is wrong")
+	p := c.MustPkg("")
+	info := p.TypesInfo
+	fd := core.MustFuncDecl(p, "dashCanonical")
+	r.Func("canvas.dashCanonical")
+	n := 0
+	var stack []ast.Node
+	modLen := func(cond ast.Expr, arr string, by func(ast.Expr) bool) bool {
+		found := false
+		ast.Inspect(cond, func(m ast.Node) bool {
+			be, ok := m.(*ast.BinaryExpr)
+			if !ok || be.Op != token.EQL {
+				return true
+			}
+			for _, pr := range [][2]ast.Expr{{be.X, be.Y}, {be.Y, be.X}} {
+				rem, ok := core.Unparen(pr[0]).(*ast.BinaryExpr)
+				if !ok || rem.Op != token.REM {
+					continue
+				}
+				if v, isC := core.ConstInt(info, pr[1]); !isC || v != 0 {
+					continue
+				}
+				if types.ExprString(core.Unparen(rem.X)) == "len("+arr+")" && by(rem.Y) {
+					found = true
+				}
+			}
+			return true
+		})
+		return found
+	}
+	ast.Inspect(fd.Body, func(m ast.Node) bool {
+		if m == nil {
+			stack = stack[:len(stack)-1]
+			return true
+		}
+		stack = append(stack, m)
+		as, ok := m.(*ast.AssignStmt)
+		if !ok || len(as.Lhs) != 1 || len(as.Rhs) != 1 {
+			return true
+		}
+		se, ok := core.Unparen(as.Rhs[0]).(*ast.SliceExpr)
+		if !ok || se.Low != nil || se.High == nil {
+			return true
+		}
+		arr := types.ExprString(se.X)
+		if types.ExprString(as.Lhs[0]) != arr {
+			return true
+		}
+		hid, ok := core.Unparen(se.High).(*ast.Ident)
+		if !ok {
+			return true // d[:len(d)-1] and the like drop a known number of entries
+		}
+		K := core.ObjOf(info, hid)
+		n++
+		key := fmt.Sprintf("canvas.dashCanonical|prefix kept #%d divides the array", n)
+		// conditions on the way: enclosing for conditions and if conditions whose body holds the statement
+		var conds []ast.Expr
+		for i := len(stack) - 2; i >= 0; i-- {
+			switch x := stack[i].(type) {
+			case *ast.ForStmt:
+				if x.Cond != nil {
+					conds = append(conds, x.Cond)
+				}
+			case *ast.IfStmt:
+				if x.Body.Pos() <= as.Pos() && as.Pos() < x.Body.End() {
+					conds = append(conds, x.Cond)
+				}
+			}
+		}
+		good := false
+		for _, cnd := range conds {
+			if modLen(cnd, arr, func(e ast.Expr) bool {
+				id, ok := core.Unparen(e).(*ast.Ident)
+				return ok && core.ObjOf(info, id) == K
+			}) {
+				good = true
+			}
+		}
+		if !good {
+			// K := len(d) / c  under  len(d) % c == 0
+			ast.Inspect(fd.Body, func(k ast.Node) bool {
+				a2, ok := k.(*ast.AssignStmt)
+				if !ok || len(a2.Lhs) != 1 || len(a2.Rhs) != 1 {
+					return true
+				}
+				if lid, ok := a2.Lhs[0].(*ast.Ident); !ok || core.ObjOf(info, lid) != K {
+					return true
+				}
+				q, ok := core.Unparen(a2.Rhs[0]).(*ast.BinaryExpr)
+				if !ok || q.Op != token.QUO || types.ExprString(core.Unparen(q.X)) != "len("+arr+")" {
+					return true
+				}
+				cv, isC := core.ConstInt(info, q.Y)
+				if !isC {
+					return true
+				}
+				for _, cnd := range conds {
+					if modLen(cnd, arr, func(e ast.Expr) bool {
+						v, ok := core.ConstInt(info, e)
+						return ok && v == cv
+					}) {
+						good = true
+					}
+				}
+				return true
+			})
+		}
+		if good {
+			r.OK("E11.dash-reduction-divides", key, c.Pos(as.Pos()), c.Src(as))
+		} else {
+			r.Fail("E11.dash-reduction-divides", key, c.Pos(as.Pos()), fmt.Sprintf("`%s` keeps a prefix of the dash array without a condition that its length divides the array's: an array that repeats a pattern and then stops in the middle of a repetition is cut down to the pattern, which has another period and, for an odd count, another dash/gap parity", c.Src(as)))
+		}
+		return true
+	})
+	r.Count("E11.dash-reduction-divides", n)
+	r.Floor("E11.dash-reduction-divides", 1)
+}
+
+// E11MagnitudeTestOnAbs: a threshold on the size of a number is tested on its absolute value.
+func E11MagnitudeTestOnAbs(c *core.Ctx, r *core.Report) {
+	r.Rule("E11.magnitude-test-on-abs", "dec.String (the formatter behind every ToPS/ToPDF operand) rounds a number of magnitude ≥ 1 to the configured number of significant digits itself before handing it to the minifier, whose own rounding drops a digit when it carries into a new integer digit (99.9999996 → \"10.\"). The test that selects this branch is about magnitude, so every ordering comparison of the method between a positive constant and a value computed from the receiver compares the absolute value (math.Abs, directly or through a local). Compared with the signed value, negative coordinates never take the branch and −99.9999996 is written −10., a tenth of its size")
+	p := c.MustPkg("")
+	info := p.TypesInfo
+	fd := core.MustFuncDecl(p, "dec.String")
+	r.Func("canvas.dec.String")
+	recv := info.Defs[fd.Recv.List[0].Names[0]]
+	defs := map[types.Object]ast.Expr{}
+	ast.Inspect(fd.Body, func(m ast.Node) bool {
+		if as, ok := m.(*ast.AssignStmt); ok && len(as.Lhs) == len(as.Rhs) {
+			for i, l := range as.Lhs {
+				if id, ok := l.(*ast.Ident); ok {
+					defs[core.ObjOf(info, id)] = as.Rhs[i]
+				}
+			}
+		}
+		return true
+	})
+	var fromRecv func(e ast.Expr, depth int) (bool, bool) // depends on the receiver, is an absolute value
+	fromRecv = func(e ast.Expr, depth int) (bool, bool) {
+		e = core.Unparen(e)
+		if name, call := core.MathFunc(info, e); name == "Abs" && len(call.Args) == 1 {
+			dep, _ := fromRecv(call.Args[0], depth)
+			return dep, true
+		}
+		switch x := e.(type) {
+		case *ast.Ident:
+			o := core.ObjOf(info, x)
+			if o == recv {
+				return true, false
+			}
+			if d, ok := defs[o]; ok && depth < 5 {
+				return fromRecv(d, depth+1)
+			}
+		case *ast.CallExpr:
+			if len(x.Args) == 1 {
+				if tv, isT := info.Types[x.Fun]; isT && tv.IsType() {
+					return fromRecv(x.Args[0], depth)
+				}
+			}
+		}
+		dep := false
+		ast.Inspect(e, func(m ast.Node) bool {
+			if id, ok := m.(*ast.Ident); ok && core.ObjOf(info, id) == recv {
+				dep = true
+			}
+			return true
+		})
+		return dep, false
+	}
+	// a two-sided test (`big < f || f < -big`) handles the negative side itself
+	twoSided := map[ast.Node]bool{}
+	ast.Inspect(fd.Body, func(m ast.Node) bool {
+		or, ok := m.(*ast.BinaryExpr)
+		if !ok || or.Op != token.LOR {
+			return true
+		}
+		var pos, neg ast.Node
+		ast.Inspect(or, func(k ast.Node) bool {
+			be, ok := k.(*ast.BinaryExpr)
+			if !ok || (be.Op != token.LSS && be.Op != token.LEQ) {
+				return true
+			}
+			if cv := core.ConstVal(info, be.X); cv != nil && numSign(cv) == 1 {
+				pos = be
+			}
+			if cv := core.ConstVal(info, be.Y); cv != nil && numSign(cv) == -1 {
+				neg = be
+			}
+			return true
+		})
+		if pos != nil && neg != nil {
+			twoSided[pos] = true
+		}
+		return true
+	})
+	n := 0
+	ast.Inspect(fd.Body, func(m ast.Node) bool {
+		be, ok := m.(*ast.BinaryExpr)
+		if !ok || (be.Op != token.LSS && be.Op != token.LEQ) || twoSided[be] {
+			return true
+		}
+		// canonical form: constant <= value  (a lower bound on the value)
+		cv := core.ConstVal(info, be.X)
+		if cv == nil || numSign(cv) != 1 {
+			return true
+		}
+		dep, abs := fromRecv(be.Y, 0)
+		if !dep {
+			return true
+		}
+		n++
+		key := fmt.Sprintf("canvas.dec.String|magnitude test #%d", n)
+		if abs {
+			r.OK("E11.magnitude-test-on-abs", key, c.Pos(be.Pos()), types.ExprString(be))
+		} else {
+			r.Fail("E11.magnitude-test-on-abs", key, c.Pos(be.Pos()), fmt.Sprintf("`%s` tests the signed value against a positive threshold: no negative number passes, so negative operands skip the rounding this branch does for them and the minifier's carry drops a digit — −99.9999996 is written `-10.`", types.ExprString(be)))
+		}
+		return true
+	})
+	r.Count("E11.magnitude-test-on-abs", n)
+	r.Floor("E11.magnitude-test-on-abs", 1)
+}
+
+// E11PieceFlagNotWholeArcs: a piece cut out of an arc does not inherit the whole arc's large flag.
+func E11PieceFlagNotWholeArcs(c *core.Ctx, r *core.Report) {
+	r.Rule("E11.piece-flag-not-whole-arcs", "the large-arc flag says that an arc spans more than half a turn. A helper that takes an arc (with its two flags) and emits it as several arcs in a loop — XMonotone's cut at the left- and right-most points — gives each piece a flag of its own: a constant, or a value computed from the piece's angles. The flag parameter of the whole arc is never passed to ArcTo inside that loop: every piece of a large arc that is shorter than half a turn would become the complementary arc through the same end points, off the ellipse and not x-monotone")
+	p := c.MustPkg("")
+	info := p.TypesInfo
+	n := 0
+	for _, fd := range core.AllFuncDecls(p) {
+		if fd.Body == nil || strings.HasSuffix(c.Fset.Position(fd.Pos()).Filename, "_test.go") {
+			continue
+		}
+		var params []types.Object
+		for _, f := range fd.Type.Params.List {
+			for _, nm := range f.Names {
+				params = append(params, info.Defs[nm])
+			}
+		}
+		var large types.Object
+		for i := 0; i+1 < len(params); i++ {
+			isBool := func(o types.Object) bool {
+				if o == nil {
+					return false
+				}
+				b, ok := o.Type().Underlying().(*types.Basic)
+				return ok && b.Kind() == types.Bool
+			}
+			if isBool(params[i]) && isBool(params[i+1]) && large == nil {
+				large = params[i]
+			}
+		}
+		if large == nil {
+			continue
+		}
+		k := 0
+		var visit func(nd ast.Node, inLoop bool)
+		visit = func(nd ast.Node, inLoop bool) {
+			ast.Inspect(nd, func(m ast.Node) bool {
+				switch x := m.(type) {
+				case *ast.ForStmt:
+					if ast.Node(x) != nd {
+						visit(x.Body, true)
+						return false
+					}
+				case *ast.RangeStmt:
+					if ast.Node(x) != nd {
+						visit(x.Body, true)
+						return false
+					}
+				case *ast.CallExpr:
+					if !inLoop || len(x.Args) < 7 {
+						return true
+					}
+					if se, ok := x.Fun.(*ast.SelectorExpr); !ok || se.Sel.Name != "ArcTo" {
+						return true
+					}
+					k++
+					n++
+					key := fmt.Sprintf("canvas.%s|piece #%d has a flag of its own", core.FuncName(fd), k)
+					if id, ok := core.Unparen(x.Args[3]).(*ast.Ident); ok && core.ObjOf(info, id) == large {
+						r.Fail("E11.piece-flag-not-whole-arcs", key, c.Pos(x.Pos()), fmt.Sprintf("`%s` gives a piece of the arc the whole arc's `%s` flag: a piece shorter than half a turn of a large arc is then drawn as the complementary arc through the same two points", types.ExprString(x), large.Name()))
+					} else {
+						r.OK("E11.piece-flag-not-whole-arcs", key, c.Pos(x.Pos()), types.ExprString(x.Args[3]))
+					}
+				}
+				return true
+			})
+		}
+		visit(fd.Body, false)
+	}
+	r.Count("E11.piece-flag-not-whole-arcs", n)
+	r.Floor("E11.piece-flag-not-whole-arcs", 1)
+}
+
+// E11CursorRevalidatedAfterJoin: a position remembered as the path's length is checked again after the path was rebuilt.
+func E11CursorRevalidatedAfterJoin(c *core.Ctx, r *core.Report) {
+	r.Rule("E11.cursor-revalidated-after-join", "Path.replace remembers `i = len(p.d)` as the place where the rest of the path will start and then rebuilds the path with `p = p.Join(rest)`. Join adds the first command of the rest through the command functions, and a Close directly after a bare MoveTo removes that MoveTo: the path can come back shorter than i. Before i is used as an index again, the statement list therefore sets it anew or clamps it (`if len(p.d) < i { i = len(p.d) }`). Without that, a last sub-path that is closed and whose only curve flattens to nothing makes `p.d[i-3]` read past the end: Flatten panics")
+	p := c.MustPkg("")
+	info := p.TypesInfo
+	fd := core.MustFuncDecl(p, "Path.replace")
+	r.Func("canvas.Path.replace")
+	recv := info.Defs[fd.Recv.List[0].Names[0]]
+	isLenOfPath := func(e ast.Expr) bool {
+		call, ok := core.Unparen(e).(*ast.CallExpr)
+		if !ok || len(call.Args) != 1 || types.ExprString(call.Fun) != "len" {
+			return false
+		}
+		se, ok := core.Unparen(call.Args[0]).(*ast.SelectorExpr)
+		if !ok {
+			return false
+		}
+		id, ok := core.Unparen(se.X).(*ast.Ident)
+		return ok && core.ObjOf(info, id) == recv
+	}
+	n := 0
+	ast.Inspect(fd.Body, func(m ast.Node) bool {
+		bl, ok := m.(*ast.BlockStmt)
+		if !ok {
+			return true
+		}
+		for a, st := range bl.List {
+			as, ok := st.(*ast.AssignStmt)
+			if !ok || len(as.Lhs) != 1 || len(as.Rhs) != 1 || !isLenOfPath(as.Rhs[0]) {
+				continue
+			}
+			iid, ok := as.Lhs[0].(*ast.Ident)
+			if !ok {
+				continue
+			}
+			idx := core.ObjOf(info, iid)
+			// a later statement of the list rebuilds the receiver from a call
+			for b := a + 1; b < len(bl.List); b++ {
+				as2, ok := bl.List[b].(*ast.AssignStmt)
+				if !ok || len(as2.Lhs) != 1 || len(as2.Rhs) != 1 {
+					continue
+				}
+				lid, ok := as2.Lhs[0].(*ast.Ident)
+				if !ok || core.ObjOf(info, lid) != recv {
+					continue
+				}
+				if _, isCall := core.Unparen(as2.Rhs[0]).(*ast.CallExpr); !isCall {
+					continue
+				}
+				n++
+				key := fmt.Sprintf("canvas.Path.replace|position `%s` checked again after the path is rebuilt #%d", iid.Name, n)
+				good := false
+				for _, later := range bl.List[b+1:] {
+					switch x := later.(type) {
+					case *ast.AssignStmt:
+						if len(x.Lhs) == 1 && len(x.Rhs) == 1 {
+							if l2, ok := x.Lhs[0].(*ast.Ident); ok && core.ObjOf(info, l2) == idx && isLenOfPath(x.Rhs[0]) {
+								good = true
+							}
+						}
+					case *ast.IfStmt:
+						mentionsLen, mentionsIdx := false, false
+						ast.Inspect(x.Cond, func(k ast.Node) bool {
+							if e, ok := k.(ast.Expr); ok && isLenOfPath(e) {
+								mentionsLen = true
+							}
+							if id, ok := k.(*ast.Ident); ok && core.ObjOf(info, id) == idx {
+								mentionsIdx = true
+							}
+							return true
+						})
+						if mentionsLen && mentionsIdx {
+							for _, s := range x.Body.List {
+								if a3, ok := s.(*ast.AssignStmt); ok && len(a3.Lhs) == 1 {
+									if l3, ok := a3.Lhs[0].(*ast.Ident); ok && core.ObjOf(info, l3) == idx {
+										good = true
+									}
+								}
+							}
+						}
+					}
+				}
+				if good {
+					r.OK("E11.cursor-revalidated-after-join", key, c.Pos(as2.Pos()), "")
+				} else {
+					r.Fail("E11.cursor-revalidated-after-join", key, c.Pos(as2.Pos()), fmt.Sprintf("`%s` rebuilds the path after `%s` was taken as its length, and nothing in the list sets or clamps `%s` afterwards: the rebuilt path can be shorter (a Close that follows a bare MoveTo removes it), and the next `p.d[%s-3]` reads past the end", c.Src(as2), iid.Name, iid.Name, iid.Name))
+				}
+			}
+		}
+		return true
+	})
+	r.Count("E11.cursor-revalidated-after-join", n)
+	r.Floor("E11.cursor-revalidated-after-join", 1)
+}
